@@ -181,6 +181,16 @@ PROPS["C17"] = {
     "assumptions": ["ClientCodec::decode precondition: no payload decoder is installed (the debug_assert of the source, moved into requires)", "ClientPayloadCodec::decode precondition: a payload decoder is installed"],
 }
 
+PROPS["C08"] = {
+    "units": ["h2_prepare_response"],
+    "kani": [],
+    "technique": "Verus contract with a loop invariant over the handler's header list on the extracted real h2 prepare_response: the outgoing header list is specified exactly (length prefix ++ kept(user headers) ++ date)",
+    "level_text": "deductive proof, for every status, body size and header list, that the HTTP/2 response head carries no connection-specific header (connection, transfer-encoding, upgrade, keep-alive, proxy-connection), that content-length is present exactly once and equals the body size when the size is known, is absent when the response has no body (1xx/204), that a handler-set content-length is forwarded only for a streaming body, that every other handler header is copied in order, that a date header is added iff absent, and that the body size is forced to None for 1xx/204",
+    "level_note": "HeaderName is abstracted to the names this function distinguishes; http::HeaderMap insert/append are ghost-list shims; itoa formatting of the length and the date value are opaque",
+    "not_decided": ["handle_response send loop: every body byte is sent exactly once in order for every flow-control capacity sequence (nested loops over poll_fn closures capturing &mut: not yet under contract)", "no body for HEAD (eof_or_head in handle_response)", "stream independence, resets, zero-capacity liveness (h2 crate, spawned tasks)", "Payload::poll_next releases capacity per chunk (h2 crate flow control)"],
+    "assumptions": [],
+}
+
 _PENDING = "not claimed yet: contracts for this property are still under construction in this session"
 NOT_APPLICABLE = {("C%02d" % i): _PENDING for i in range(1, 20)}
 NOT_APPLICABLE["C06"] = "every clause is about instants (deadlines vs. arrival times, runtime timer ordering); no function contract expresses virtual time or scheduler ordering (DESIGN.md section 4 C06)"
